@@ -388,7 +388,26 @@ func snapshotPath(c *Config, tName string, isStandalone bool) (string, string) {
 		snapPathRel, _ = filepath.Rel(filepath.Dir(callerFilename), snapPath)
 	}
 
+	if isStandalone {
+		// standalone paths are used as a format for adding the snapshot's number,
+		// any other '%' (test name, dir, filename or extension) needs to be escaped
+		return escapeStandaloneFormat(snapPath, c.extension),
+			escapeStandaloneFormat(snapPathRel, c.extension)
+	}
+
 	return snapPath, snapPathRel
+}
+
+// escapeStandaloneFormat escapes all '%' in a standalone snapshot path
+// except the "%d" verb added from constructFilename.
+func escapeStandaloneFormat(s, extension string) string {
+	suffix := "%d" + snapsExt + extension
+	if !strings.HasSuffix(s, suffix) {
+		return s
+	}
+
+	return strings.ReplaceAll(s[:len(s)-len(suffix)], "%", "%%") +
+		"%d" + snapsExt + strings.ReplaceAll(extension, "%", "%%")
 }
 
 func constructFilename(c *Config, callerFilename, tName string, isStandalone bool) string {
